@@ -283,6 +283,31 @@ def check(model, tier):
     else:
         run.ok("R18.1", "execute:short-circuits")
     run.assume("leaf payloads supplied by callers are RowIterable objects whose __iter__ can be called repeatedly")
+    from ..rules import dispatch as _dispatch
+
+    _dispatch.r08_1_totality(ctx, rule="R18.5", scope="iteration")
+    # ---- R18.6 each operand of a node is executed at most once per call
+    run.rule("R18.6", "on every path through execute() each operand of the node (target, lhs, rhs) is executed at most once: an eager operation upstream is not run a second time", 6)
+    from ..flow import field_access, path_calls
+
+    for i, p in enumerate(paths):
+        if p.outcome != "return":
+            continue
+        arm, idx = arm_of(p)
+        if arm is None:
+            continue
+        per: dict[tuple, list] = {}
+        for j, c in path_calls(p):
+            if call_attr(c) == "execute" and c.args:
+                fa = field_access(p, c.args[0], j)
+                if fa is not None and fa[0] == rel and fa[1] and fa[1][-1] in ("target", "lhs", "rhs"):
+                    per.setdefault(fa[1], []).append(c)
+        for acc, calls in per.items():
+            inst = f"execute:{arm}:{'.'.join(acc)}:once"
+            if len(calls) > 1:
+                run.fail("R18.6", inst, f"the {arm} arm executes `{'.'.join(acc)}` {len(calls)} times on one path (`{src(calls[1])[:50]}` again): a sort, deduplication or unexecuted materialization upstream consumes its input once per execution", fi=ex, node=calls[1], details=describe(p))
+            else:
+                run.ok("R18.6", inst)
     from ..rules.foundation import run_foundation
 
     run_foundation(ctx, "18")
